@@ -367,7 +367,7 @@ def parse_file(
         content = None
 
     visitor = SimpleCxxVisitor()
-    parser = CxxParser(filename, content, visitor, options)
+    parser = CxxParser(filename, content, visitor, options, encoding)
     parser.parse()
 
     return visitor.data
